@@ -215,6 +215,9 @@ def run (st : St) (args : List String) : St × String :=
       | some t => ({ setConn st k.toNat! { c with c := drain (noise c.c) } with table := t, nextUid := st.nextUid + 1 }, "ok")
       | none => (st, "error:duplicate")
     | none => (st, "bad-op")
+  -- the server's writes to this connection fail from now on: the others are sent to all the same
+  -- (Props/C13Loop every_user_is_sent_to); this connection is not looked at any more
+  | ["sg.mute", _] => (st, "ok")
   | ["sg.rawreg", k] =>
     match st.conns[k.toNat!]? with
     | some c =>
